@@ -114,3 +114,120 @@ def case_symbol(ureg, s):
 def case_parse(ureg, s):
     r = ureg.parse_unit_name(s)
     return f"RParse {coq_str(s)} {coq_list(['(' + coq_str(p) + ', ' + coq_str(u) + ')' for p, u, _ in r])}"
+
+
+# ---------------------------------------------------------------- randomly generated registries
+def gen_definition_lines(rng, n_units=18):
+    """A random, well-formed definition file: base dimensions, a derived-dimension DAG, prefixes,
+    units with rational decimal factors, symbols, aliases, forward references."""
+    dims = ["[alpha]", "[beta]", "[gamma]", "[delta]"][: rng.randint(2, 4)]
+    lines = ["# generated", "kilo- = 1e3 = k-", "milli- = 1e-3 = m-", "mega- = 1e6 = M-", f"demi- = 0.5 = _ = semi-"]
+    base = []
+    for i, d in enumerate(dims):
+        nm = f"b{i}unit"
+        lines.append(f"{nm} = {d} = b{i}" + (f" = base{i}" if rng.random() < 0.5 else ""))
+        base.append(nm)
+    lines.append(f"[speedlike] = {dims[0]} / {dims[1]}")
+    if len(dims) > 2:
+        lines.append(f"[forcelike] = [speedlike] * {dims[2]} / {dims[1]}")
+    lines.append("plain = []")
+    names = list(base)
+    defs = []
+    for j in range(n_units):
+        nm = f"u{j}x"
+        k = rng.randint(1, 3)
+        refs = rng.sample(names + ([f"u{j + 1}x"] if j + 1 < n_units and rng.random() < 0.15 else []), min(k, len(names)))
+        fac = rng.choice(["2", "0.5", "1.25", "12", "3e2", "1e-3", "7", "0.3048", "1/3", "2**3", "5/4"])
+        rhs = fac
+        for r in refs:
+            e = rng.choice([1, 1, 1, 2, -1, -2])
+            pre = rng.choice(["", "", "kilo", "milli", "k"]) if r in names and not r.startswith("b") else rng.choice(["", "kilo"])
+            if pre == "k" and not (r in names):
+                pre = ""
+            spelled = pre + r
+            if pre == "k":       # symbol prefix needs a symbol-ish spelling; use the unit's alias when it has one
+                spelled = "kilo" + r
+            rhs += f" * {spelled}" if e == 1 else (f" / {spelled}" if e == -1 else f" * {spelled} ** {e}")
+        sym = f"s{j}" if rng.random() < 0.6 else "_"
+        al = [f"al{j}"] if rng.random() < 0.4 else []
+        line = f"{nm} = {rhs}"
+        if sym != "_" or al:
+            line += f" = {sym}" + "".join(f" = {a}" for a in al)
+        defs.append(line)
+        names.append(nm)
+    rng.shuffle(defs)          # order must not matter (forward references are resolved lazily)
+    return lines + defs
+
+
+def load_generated(lines, nit=F):
+    """-> (pint registry, coq term of type list rawdef) from definition lines, via T1's reader"""
+    import os
+    import shutil
+    import tempfile
+    import pint
+    from . import t1_defs
+    d = tempfile.mkdtemp(prefix="pintverif_")
+    try:
+        p = os.path.join(d, "gen.txt")
+        with open(p, "w", encoding="utf-8") as f:
+            f.write("\n".join(lines) + "\n")
+        parsed = t1_defs.parse_file(__import__("pathlib").Path(p))
+        ureg = pint.UnitRegistry(p, non_int_type=nit, cache_folder=None)
+    finally:
+        shutil.rmtree(d, ignore_errors=True)
+    raw = coq_list([t1_defs.coq_rawdef(x) for x in parsed["defs"]])
+    return ureg, raw
+
+
+def gen_header(raw, ident="greg"):
+    return ("From PintV Require Import Model.UC Model.Eval Model.Registry Model.RegistryRun.\nOpen Scope string_scope.\n"
+            f"Definition {ident} : reg := match load {raw} with Ok r => r | Err _ => empty_reg end.\n"
+            f"Definition ok (c : regcase) : bool := reg_ok {ident} c.\n")
+
+
+def generated_stream(ck, rng, n_regs, oracle, tag):
+    """Randomly generated registries: model (Coq `load` of T1's reading of the same text) vs pint,
+    plus the C01/C02 oracles on the generated registry itself. Returns (cases, disagreements, first)."""
+    import pint
+    total, nbad, first = 0, 0, None
+    for gi in range(n_regs):
+        lines = gen_definition_lines(rng)
+        ureg, raw = load_generated(lines)
+        sp = spellings(ureg)
+        cases, desc = [], []
+        for s in sp:
+            cases.append(case_dim(ureg, {s: F(1)})); desc.append({"dim_of": s})
+            cases.append(case_root(ureg, {s: F(1)})); desc.append({"root_of": s})
+        can = canonical_names(ureg)
+        dims = {n: frozenset(ucd(ureg.get_dimensionality(mkuc(ureg, {n: F(1)}))).items()) for n in can}
+        for _ in range(80):
+            a, b = rng.choice(sp), rng.choice(sp)
+            cases.append(case_factor(ureg, {a: F(1)}, {b: F(1)})); desc.append({"factor": [a, b]})
+            ca, cb = ureg.get_name(a), ureg.get_name(b)
+            same = dims.get(ca) == dims.get(cb)
+            try:
+                x = ureg.convert(F(1), a, b)
+                okc = True
+            except pint.errors.DimensionalityError:
+                okc = False
+            rp = {"definitions": lines, "a": a, "b": b}
+            oracle(okc == same, f"generated:{tag}:iff", f"generated registry: convert {a}->{b} succeeds={okc}, same dimensionality={same}", rp)
+            if okc:
+                y = ureg.convert(F(1), b, a)
+                oracle(x * y == 1 and type(x) in (F, int), f"generated:{tag}:inverse", f"generated registry: conv(a,b)*conv(b,a) = {x * y}", rp)
+                fa = F(ureg._get_root_units(mkuc(ureg, {a: F(1)}))[0])
+                fb = F(ureg._get_root_units(mkuc(ureg, {b: F(1)}))[0])
+                oracle(x == fa / fb, f"generated:{tag}:ratio", f"generated registry: conv(a,b) = {x} != {fa / fb}", rp)
+                c = rng.choice([n for n in sp if dims.get(ureg.get_name(n)) == dims.get(ca)])
+                oracle(ureg.convert(ureg.convert(F(3), a, c), c, b) == ureg.convert(F(3), a, b), f"generated:{tag}:path", "generated registry: a->c->b differs from a->b", dict(rp, c=c))
+            ck.case(key=("gen", tag, gi, a, b), sample={"generated_registry_lines": lines[:8]} if gi == 0 and _ == 0 else None)
+        bad = ck.coq_mismatches(f"gen{tag}{gi}", gen_header(raw), cases, "ok")
+        total += len(cases)
+        if bad is None:
+            nbad += 1
+            first = first or {"registry": lines, "coq": "evaluation failed"}
+        elif bad:
+            nbad += len(bad)
+            first = first or {"registry": lines, "case": desc[bad[0]], "coq_case": cases[bad[0]]}
+        ck.count("generated registries")
+    return total, nbad, first
